@@ -2,12 +2,12 @@
 (* Model-checking instances of FuelShuffle: constants of the generated cores, bounds, views, emission. *)
 EXTENDS FuelShuffle
 
-\* core S: 3 assemblies on 4 locations + 2 fresh.  Assembly 3 is shorter (no plenum), fresh 5 has its grid plate on top:
-\* every stationary-flag setting but {} produces incompatible pairs as well as compatible ones.
-LayoutS == <<  <<"G", "F", "P">>, <<"G", "F", "P">>, <<"G", "F">>, <<"G", "F", "P">>, <<"F", "G">>  >>
+\* core S: 3 assemblies on 4 locations + 1 in the pre-loaded pool + 2 fresh.  Assembly 3 is shorter (no plenum), fresh 6
+\* has its grid plate on top: every stationary-flag setting but {} produces incompatible pairs as well as compatible ones.
+LayoutS == <<  <<"G", "F", "P">>, <<"G", "F", "P">>, <<"G", "F">>, <<"G", "F", "P">>, <<"G", "F", "P">>, <<"F", "G">>  >>
 PlaceS  == <<1, 2, 3>>
-\* core T: 4 assemblies on 5 locations + 2 fresh, two stationary types per assembly
-LayoutT == <<  <<"G", "F", "P">>, <<"G", "F", "P">>, <<"G", "S", "F">>, <<"G", "F">>, <<"G", "F", "P">>, <<"G", "S", "F">>  >>
+\* core T: 4 assemblies on 5 locations + 1 pooled + 2 fresh, two stationary types per assembly
+LayoutT == <<  <<"G", "F", "P">>, <<"G", "F", "P">>, <<"G", "S", "F">>, <<"G", "F">>, <<"G", "S", "F">>, <<"G", "F", "P">>, <<"G", "S", "F">>  >>
 PlaceT  == <<1, 3, 4, 5>>
 FlagsNone == {{}}
 FlagsG    == {{"G"}}
